@@ -103,6 +103,10 @@ extern "C"{
 #define CO_SDO_ERR_GENERAL      0x08000000    /*!< General error                          */
 
 #define CO_SDO_BUF_SEG     127
+#if defined(CO_VERIF) && defined(CO_VERIF_SDO_BUF_SEG)
+#undef  CO_SDO_BUF_SEG
+#define CO_SDO_BUF_SEG     CO_VERIF_SDO_BUF_SEG    /* verification: scaled-down transfer buffer */
+#endif
 #define CO_SDO_BUF_BYTE    (CO_SDO_BUF_SEG*7) /*!< transfer buffer size in byte           */
 
 /******************************************************************************
